@@ -6,6 +6,7 @@ outside the working directory.  Judged from the real exit status, stderr, the si
 and the artefacts in the scratch working directory."""
 import hashlib
 import json
+from . import bigjson
 import os
 import shutil
 import subprocess
@@ -20,10 +21,19 @@ PY = "/venv/bin/python"
 PREAMBLE = r'''
 import sys, os, json, builtins
 _SIDE = os.environ["VERIF_SIDE"]
+def _lift(f, *a):
+    # (the checker's own (de)serialisation may meet integers beyond the interpreter's int <-> str limit; the limit is
+    # put back before any library code runs)
+    _o = sys.get_int_max_str_digits()
+    sys.set_int_max_str_digits(0)
+    try:
+        return f(*a)
+    finally:
+        sys.set_int_max_str_digits(_o)
 def _side(rec):
     with open(_SIDE, "a") as f:
-        f.write(json.dumps(rec) + "\n")
-_cfg = json.loads(os.environ["VERIF_CHILD_CFG"])
+        f.write(_lift(json.dumps, rec) + "\n")
+_cfg = _lift(json.loads, os.environ["VERIF_CHILD_CFG"])
 if "random_seed" in _cfg:
     import random as _rm
     _rr = _rm.Random(_cfg["random_seed"])
@@ -146,7 +156,7 @@ def run_child(body_src, cfg, env, pre_files=None, timeout=120, pyflags=()):
             f.write(PREAMBLE + "\n" + body_src)
         e = dict(env)
         e["VERIF_SIDE"] = side
-        e["VERIF_CHILD_CFG"] = json.dumps(cfg)
+        e["VERIF_CHILD_CFG"] = bigjson.dumps(cfg)
         e["VERIF_TOOL_LOG"] = os.path.join(side_dir, "tools.jsonl")
         try:
             p = subprocess.run([PY] + list(pyflags) + [script], cwd=cwd, env=e, capture_output=True, timeout=timeout,
@@ -159,7 +169,7 @@ def run_child(body_src, cfg, env, pre_files=None, timeout=120, pyflags=()):
         if os.path.exists(side):
             with open(side) as f:
                 for ln in f:
-                    events.append(json.loads(ln))
+                    events.append(bigjson.loads(ln))
         tools = []
         tl = os.path.join(side_dir, "tools.jsonl")
         if os.path.exists(tl):
